@@ -105,6 +105,27 @@ def gil_site(stack_lines):
     return first
 
 
+def in_image_member(stack_lines):
+    """True if some frame of the stack is a member function of boost::gil::image<...> or any_image<...> (constructor,
+    destructor, assignment, recreate, swap, allocate_/deallocate ...): the failing access was made *by the container
+    protocol itself*, on behalf of the operation history, not by a pixel accessor of a view handed to the caller."""
+    for ln in stack_lines:
+        m = re.search(r' in (.*)$', ln)
+        if not m:
+            continue
+        f = m.group(1)
+        if 'boost::gil::image<' not in f and 'boost::gil::any_image<' not in f:
+            continue
+        for _ in range(40):
+            g = re.sub(r'<[^<>]*>', '', f)
+            if g == f:
+                break
+            f = g
+        if re.match(r'^(\S+ )?boost::gil::(image|any_image)::(~?\w+|operator=)\(', f):
+            return True
+    return False
+
+
 def third_party_only(stack_lines):
     """True if no frame at all lies in gil headers (faulting stack entirely inside libpng/libtiff/...)"""
     for ln in stack_lines:
@@ -125,7 +146,7 @@ def classify_stderr(text):
             m = re.match(r'SIMGUARD sig=(\d+) class=(\S+) site=(\S*) detail=(.*)', ln)
             stack = lines[i + 1:i + 60]
             site = gil_site(stack) or ('op:' + m.group(3))
-            return dict(cls=m.group(2), site=site, detail=m.group(4), stack=stack[:30])
+            return dict(cls=m.group(2), site=site, detail=m.group(4), stack=stack[:30], op=m.group(3), in_image_member=in_image_member(stack))
         m = re.search(r'ERROR: AddressSanitizer: (\S+)', ln)
         if m:
             kind = m.group(1)
@@ -164,7 +185,7 @@ def classify_stderr(text):
                 site = 'no-gil-frame'
             if asite:
                 site += '|buf@' + asite
-            return dict(cls='asan:' + kind + rw, site=site, detail=ln.strip()[:200], stack=stack[:30], third_party=tp)
+            return dict(cls='asan:' + kind + rw, site=site, detail=ln.strip()[:200], stack=stack[:30], third_party=tp, in_image_member=in_image_member(stack))
         m = re.search(r'runtime error: (.*)', ln)
         if m:
             msg = m.group(1)
